@@ -28,6 +28,9 @@
 (*  child-count            not (children whose Start returned before any End     *)
 (*                         call) <= count <= (children whose Start was called    *)
 (*                         before any End returned)                              *)
+(*  dropped-count          with every limit 0 the dropped counters of the        *)
+(*                         snapshot are not the sums over an admissible set of   *)
+(*                         mutations (torn / after End / lost update)            *)
 (*  recording-after-end    IsRecording called after an End returned says true    *)
 (*  not-recording-before-end   IsRecording returned false before any End call    *)
 (*  snapshot-mutated       a kept snapshot reads differently later               *)
@@ -36,7 +39,7 @@
 (*                         (also re-entrant calls made from processor callbacks) *)
 (* The sampling decision of a span (Cfg.sampled: RecordAndSample / RecordOnly) is *)
 (* recorded and deliberately used by NO clause: every recording span counts.     *)
-EXTENDS Naturals, Sequences, FiniteSets, TLC
+EXTENDS Naturals, Sequences, FiniteSets, FiniteSetsExt, TLC
 
 Put(f, k, v) == [x \in (DOMAIN f) \cup {k} |-> IF x = k THEN v ELSE f[x]]
 SeqToSet(s) == {s[i] : i \in 1..Len(s)}
@@ -46,6 +49,7 @@ FreshSpan == [endCalled |-> FALSE, endOpen |-> 0, endRet |-> FALSE,
               ts |-> {},             \* explicit end timestamps of the End calls made (indices 1..99)
               implicit |-> FALSE,    \* some End call carried no timestamp (its end time is the time of the call)
               called |-> {}, mustIn |-> {}, mustOut |-> {},
+              w |-> <<>>,            \* mutation token -> what it adds to the dropped <<attributes, events, links>> counters (limits 0)
               childMustIn |-> 0, childEligible |-> 0,
               rAfter |-> {},         \* procs whose pending IsRecording / EndTime call began after an End returned
               must |-> {},           \* processors registered when End was first called
@@ -65,6 +69,9 @@ Count(r, p) == IF p \in DOMAIN r.handed THEN r.handed[p] ELSE 0
 V(m, s, kind, detail) == [kind |-> kind, span |-> s, rt |-> m.cfg.rt, hooks |-> m.cfg.hooks,
                           overlap |-> Sp(m, s).overlap, win |-> Sp(m, s).winOverlap, detail |-> detail]
 
+Tot(r, S, i) == FoldSet(LAMBDA t, acc : acc + r.w[t][i], 0, S)
+DroppedOK(r, got) == \E J \in SUBSET ((r.called \ r.mustOut) \ r.mustIn) :
+                        \A i \in 1..3 : Tot(r, r.mustIn \cup J, i) = got[i]
 QueueOK(lim, miss, drop) == IF miss < lim THEN drop = miss ELSE drop >= lim
 
 (* Step(m, e) = <<next monitor state, set of violated clauses (records)>> *)
@@ -86,7 +93,7 @@ Step(m, e) ==
     [] e.ev = "Call" /\ e.op = "Unreg" -> <<[m EXCEPT !.unreg = @ \cup {e.arg}], {}>>
     [] e.ev = "Call" /\ e.op = "Mut" ->
          LET r == Sp(m, e.span) IN
-         <<With(m, e.span, [r EXCEPT !.called = @ \cup {e.arg},
+         <<With(m, e.span, [r EXCEPT !.called = @ \cup {e.arg}, !.w = Put(@, e.arg, <<e.wa, e.we, e.wl>>),
                                      !.mustOut = IF r.endRet THEN @ \cup {e.arg} ELSE @]), {}>>
     [] e.ev = "Ret" /\ e.op = "Mut" ->
          LET r == Sp(m, e.span) IN
@@ -123,7 +130,12 @@ Step(m, e) ==
                    THEN {V(m, e.span, "end-time-unknown", e.et)} ELSE {})
            \cup (IF e.partial # <<>> THEN {V(m, e.span, "torn-mutation", e.partial)} ELSE {})
            \* with small limits a mutation that returned before End may have been evicted / dropped again
-           \cup (IF m.cfg.lim = 0 /\ ~(r.mustIn \subseteq full) THEN {V(m, e.span, "mutation-lost", r.mustIn \ full)} ELSE {})
+           \cup (IF m.cfg.lim = 0 /\ ~m.cfg.zero /\ ~(r.mustIn \subseteq full) THEN {V(m, e.span, "mutation-lost", r.mustIn \ full)} ELSE {})
+           \* every limit 0: a mutation is observable ONLY through the dropped counters; "wholly in or wholly out" then reads:
+           \* the counters are the sums over exactly the mutations of some admissible set (all that must be in, none that
+           \* must be out, any of those that ran concurrently with End)
+           \cup (IF m.cfg.zero /\ ~DroppedOK(r, <<e.datt, e.dev, e.dlk>>)
+                   THEN {V(m, e.span, "dropped-count", <<e.datt, e.dev, e.dlk>>)} ELSE {})
            \* FIFO: the oldest entries go first, so while one of the lim initial entries is left exactly the missing
            \* ones were dropped; once all are gone at least lim were
            \cup (IF m.cfg.lim > 0 /\ ~QueueOK(m.cfg.lim, e.evmiss, e.evdrop)
@@ -160,6 +172,13 @@ Step(m, e) ==
               \cup (IF ~e.same THEN {B("snapshot-mutated", 1)} ELSE {})
               \cup (IF e.handed > 0 /\ ~QueueOK(m.cfg.lim, e.evmiss, e.evdrop) THEN {B("torn-mutation", <<"events", e.evmiss, e.evdrop>>)} ELSE {})
               \cup (IF e.handed > 0 /\ ~QueueOK(m.cfg.lim, e.lkmiss, e.lkdrop) THEN {B("torn-mutation", <<"links", e.lkmiss, e.lkdrop>>)} ELSE {})>>
+    [] e.ev = "Bulk3" ->     \* every limit 0, 20 mutator calls hammering one span; exact: all returned before End was called
+         LET B(kind, d) == [kind |-> kind, span |-> e.span, rt |-> m.cfg.rt, hooks |-> m.cfg.hooks,
+                            overlap |-> FALSE, win |-> FALSE, detail |-> d] IN
+         <<m, (IF e.handed # 1 THEN {B(IF e.handed = 0 THEN "not-delivered" ELSE "delivered-twice", e.handed)} ELSE {})
+              \cup (IF ~e.same THEN {B("snapshot-mutated", 1)} ELSE {})
+              \cup (IF \E i \in 1..3 : (IF e.exact THEN e.got[i] # e.want[i] ELSE e.got[i] > e.want[i])
+                      THEN {B("dropped-count", <<e.exact, e.want, e.got>>)} ELSE {})>>
     [] e.ev = "Panic" -> <<m, {V(m, e.span, "panic", e.proc)}>>
     [] e.ev = "Stuck" -> <<m, IF e.deadlock THEN {V(m, 0, "deadlock", e.where)} ELSE {}>>
     [] OTHER -> <<m, {}>>
